@@ -691,7 +691,7 @@ class C20(Property):
                 if "s" in it and rng.chance(0.6):
                     it["sc"] = rng.choice(["cat", "sub"])
 
-    def vary(self, rng, v, state):
+    def vary(self, rng, v, state, pool="primes"):
         """same container type, different contents; sequences may gain or lose their strings"""
         v = json.loads(json.dumps(v))
         v.pop("obj", None)
@@ -700,23 +700,23 @@ class C20(Property):
             has_str = any("s" in it for it in items)
             r = rng.below(100)
             if has_str and r < 45:
-                items = [it if "n" in it else self.gen_numbers(rng, "primes", 1, state)[0] for it in items]
+                items = [it if "n" in it else self.gen_numbers(rng, pool, 1, state)[0] for it in items]
             elif not has_str and items and r < 35:
                 items[rng.below(len(items))] = {"s": rng.choice(["a", "b", "red", ""])}
             else:
-                items = [it if ("s" in it or rng.chance(0.3)) else self.gen_numbers(rng, "primes", 1, state)[0] for it in items]
+                items = [it if ("s" in it or rng.chance(0.3)) else self.gen_numbers(rng, pool, 1, state)[0] for it in items]
                 if items and rng.chance(0.25):
                     items = items[:-1]
                 elif len(items) < 5 and rng.chance(0.3):
-                    items.append(self.gen_numbers(rng, "primes", 1, state)[0])
+                    items.append(self.gen_numbers(rng, pool, 1, state)[0])
             v["v"] = items
         elif v["k"] == "sparse":
-            kvs = [[k, it if ("s" in it and rng.chance(0.6)) else (self.gen_numbers(rng, "primes", 1, state)[0] if rng.chance(0.8) else {"s": "z"})] for k, it in v["v"]]
+            kvs = [[k, it if ("s" in it and rng.chance(0.6)) else (self.gen_numbers(rng, pool, 1, state)[0] if rng.chance(0.8) else {"s": "z"})] for k, it in v["v"]]
             if kvs and rng.chance(0.25):
                 kvs = kvs[1:]
             v["v"] = kvs
         elif v["k"] == "scalar":
-            v["v"] = {"s": rng.choice(["abc", "d", "q"])} if "s" in v["v"] else self.gen_numbers(rng, "primes", 1, state)[0]
+            v["v"] = {"s": rng.choice(["abc", "d", "q"])} if "s" in v["v"] else self.gen_numbers(rng, pool, 1, state)[0]
         return v
 
     def add_history(self, rng, case, tier):
@@ -743,8 +743,10 @@ class C20(Property):
                 ns = json.loads(json.dumps(prev))
             else:
                 ns = []
+                # keep every product exact: a call with floats only receives small dyadic floats
+                pool = "dyadic" if any(it.get("f") for it in all_items({"ns": prev})) else "primes"
                 for c, v in prev:
-                    v2 = self.vary(rng, v, state)
+                    v2 = self.vary(rng, v, state, pool)
                     if mode == "same-object" and "obj" in v:
                         v2["obj"] = v["obj"]
                     ns.append([c, v2])
